@@ -107,6 +107,24 @@ def diff_doc(a, b, path="", tol=False, mode="tol"):
     return None if a == b else "%s: %r != %r" % (path, a, b)
 
 
+def _unknown_type(d):
+    from histogrammar.defs import Factory
+
+    if isinstance(d, dict):
+        for k, v in d.items():
+            if (k == "type" or k.endswith(":type")) and isinstance(v, str) and v not in Factory.registered:
+                return v
+            r = _unknown_type(v)
+            if r is not None:
+                return r
+    elif isinstance(d, list):
+        for v in d:
+            r = _unknown_type(v)
+            if r is not None:
+                return r
+    return None
+
+
 def _negative_entries(obj, depth=0):
     try:
         if obj.entries < 0:
@@ -395,6 +413,10 @@ class PyExec:
             neg = _negative_entries(P[op[1]])
             if neg is not None:
                 return "violation: accepted a document (%s) with negative entries %r in a %s" % (op[3], neg[0], neg[1])
+            # every primitive named anywhere in an accepted document is a registered one
+            bogus = _unknown_type(op[2])
+            if bogus is not None:
+                return "violation: accepted a document (%s) that names an unknown primitive %r" % (op[3], bogus)
             want = normalise_doc(canon_doc(op[2]))
             d = diff_doc(got, want, mode="strict")
             return ("violation: accepted a document that is not a valid serialisation (%s): %s" % (op[3], d)) if d else "ok"
@@ -480,8 +502,18 @@ class ModelExec:
         self.d.close()
 
 
+def _coarse(r):
+    """which exception class is raised is not part of any property: a reply is 'ok', 'raise', or data"""
+    if isinstance(r, str) and r.startswith("raise"):
+        return "raise"
+    if isinstance(r, list):
+        return [_coarse(x) for x in r]
+    return r
+
+
 def same_reply(op, rp, rm):
     """None if the two replies agree, else a description."""
+    rp, rm = _coarse(rp), _coarse(rm)
     if op[0] == "json":
         return diff_doc(rp, rm)
     if op[0] == "fillsnp":
